@@ -302,8 +302,8 @@ func sortExtractor(args []string) []int {
 	if len(args) == 0 {
 		return nil
 	}
-	keys := []int{0}
-	hasStore := false
+	// redis, db.c:sortGetKeys : STORE takes the destination key and the last STORE wins.
+	dest := -1
 	for i := 1; i < len(args); i++ {
 		switch {
 		case strings.EqualFold(args[i], "store"):
@@ -311,8 +311,7 @@ func sortExtractor(args []string) []int {
 				return nil
 			}
 			// The STORE destination is also a key accessed by the command.
-			keys = append(keys, i+1)
-			hasStore = true
+			dest = i + 1
 			i++
 		case strings.EqualFold(args[i], "by"):
 			if i+1 >= len(args) {
@@ -335,10 +334,10 @@ func sortExtractor(args []string) []int {
 	}
 	// Only return keys when STORE is present, so callers can decide whether
 	// partial projection is allowed.
-	if !hasStore {
+	if dest < 0 {
 		return nil
 	}
-	return keys
+	return []int{0, dest}
 }
 
 // geoRadiusStoreExtractor extracts the source key and STORE/STOREDIST destination key
@@ -349,19 +348,20 @@ func geoRadiusStoreExtractor(args []string) []int {
 	if len(args) == 0 {
 		return nil
 	}
-	keys := []int{0}
-	hasStore := false
-	for i := 1; i < len(args)-1; i++ {
+	// redis, db.c:georadiusGetKeys : the options start at the sixth word of the command (a member
+	// or a unit may be called "store"), each takes the following word as its key and the last
+	// one is the key that is written.
+	dest := -1
+	for i := 4; i < len(args)-1; i++ {
 		if strings.EqualFold(args[i], "store") || strings.EqualFold(args[i], "storedist") {
-			keys = append(keys, i+1)
-			hasStore = true
-			break
+			dest = i + 1
+			i++
 		}
 	}
-	if !hasStore {
+	if dest < 0 {
 		return nil
 	}
-	return keys
+	return []int{0, dest}
 }
 
 // CommandKeys returns the list of key strings accessed by the command.
